@@ -1,0 +1,162 @@
+// SPDX-FileCopyrightText: 2026 The Pion community <https://pion.ly>
+// SPDX-License-Identifier: MIT
+
+//go:build verif
+
+// Machine-checked contracts for package allocation (comment-only file; compiled only with -tags verif,
+// and even then it adds no code). Checked by /verif/turnvc against the go/ssa of this package.
+
+package allocation
+
+//@      // ---- well-formedness of an Allocation (type invariants assumed on entry, kept by every method)
+//@ spec func chansWF(a *Allocation) bool = forall i :: 0 <= i && i < len(a.channelBindings) ==> a.channelBindings[i] != nil
+//@ spec func permsWF(a *Allocation) bool = forall k :: haskey(a.permissions, k) ==> valat(a.permissions, k) != nil
+//@ spec func allocWF(a *Allocation) bool = a.fiveTuple != nil && a.log != nil && a.permissions != nil && permsWF(a) && chansWF(a)
+
+//@      // ---- abstract views used by the properties
+//@ spec func hasPerm(a *Allocation, addr net.Addr) bool = has(a.permissions, ipKey(addr))
+//@ spec func boundPeer(a *Allocation, addr net.Addr) bool = exists i :: 0 <= i && i < len(a.channelBindings) && a.channelBindings[i].Peer == addr
+
+//@ func (*Allocation).GetPermission
+//@   pure
+//@   ensures [C01,C02:lookup] res == a.permissions[ipKey(addr)]
+
+//@ func (*Allocation).GetChannelByNumber
+//@   requires chansWF(a)
+//@   pure
+//@   ensures [C01,C08:found] res != nil ==> exists i :: 0 <= i && i < len(a.channelBindings) && a.channelBindings[i] == res && res.Number == number
+//@   ensures [C01,C08:absent] res == nil ==> forall i :: 0 <= i && i < len(a.channelBindings) ==> a.channelBindings[i].Number != number
+//@   loop 0 invariant -1 <= rangeindex && rangeindex < len(a.channelBindings) && chansWF(a)
+//@   loop 0 invariant forall j :: 0 <= j && j <= rangeindex ==> a.channelBindings[j].Number != number
+//@   loop 0 decreases len(a.channelBindings) - rangeindex
+
+//@ func (*Allocation).GetChannelByAddr
+//@   requires chansWF(a)
+//@   pure
+//@   ensures [C02,C08:found] res != nil ==> exists i :: 0 <= i && i < len(a.channelBindings) && a.channelBindings[i] == res && addrEqual(res.Peer, addr)
+//@   ensures [C02,C08:absent] res == nil ==> forall i :: 0 <= i && i < len(a.channelBindings) ==> !addrEqual(a.channelBindings[i].Peer, addr)
+//@   loop 0 invariant -1 <= rangeindex && rangeindex < len(a.channelBindings) && chansWF(a)
+//@   loop 0 invariant forall j :: 0 <= j && j <= rangeindex ==> !addrEqual(a.channelBindings[j].Peer, addr)
+//@   loop 0 decreases len(a.channelBindings) - rangeindex
+
+//@ func (*Allocation).WriteTo
+//@   requires [C01:authorised] hasPerm(a, addr) || boundPeer(a, addr)
+//@   at-call invoke net.PacketConn.WriteTo assert [C01,C05:own-relay] recv == a.relayPacketConn && sameSlice(arg0, p) && arg1 == addr
+//@   ensures [C05:once] a.relayPacketConn != nil ==> pktWrites[a.relayPacketConn] == old(pktWrites[a.relayPacketConn]) + 1
+//@   ensures [C01:only-relay] forall c :: c != a.relayPacketConn ==> pktWrites[c] == old(pktWrites[c])
+//@   ensures [C05:no-socket] a.relayPacketConn == nil ==> err != nil && pktWrites == old(pktWrites)
+//@   assigns pktWrites
+
+//@      // ---- permissions (C01, C07). famOK mirrors RFC 6156: the peer must be of the allocation's address family.
+//@ spec func famOK(ip net.IP, fam int) bool = fam == 1 ? isV4(ip) : (fam == 2 ? (!isV4(ip) && validIP(ip)) : false)
+//@ spec func timerSet(t *time.Timer, d int) bool = t != nil && armed(t) && dur(t) == d
+//@ spec func permTimers(a *Allocation) bool = forall k :: haskey(a.permissions, k) ==> valat(a.permissions, k).lifetimeTimer != nil && valat(a.permissions, k).log != nil && valat(a.permissions, k).allocation == a
+
+//@ func NewPermission
+//@   pure
+//@   ensures res != nil && fresh(res) && res.Addr == addr && res.timeout == timeout && res.log == log && res.lifetimeTimer == nil && res.allocation == nil
+
+//@ func (*Permission).start
+//@   ensures [C07:armed] timerSet(p.lifetimeTimer, lifetime) && fresh(p.lifetimeTimer)
+//@   ensures [C01,C07:expiry-action] clofn(timerfn(p.lifetimeTimer)) == fnid("(*Permission).start$1") && *clovar(timerfn(p.lifetimeTimer), "(*Permission).start$1", 0) == p
+//@   ensures forall t :: t != p.lifetimeTimer ==> dur(t) == old(dur(t)) && armed(t) == old(armed(t)) && timerfn(t) == old(timerfn(t))
+//@   assigns p.lifetimeTimer, timers
+
+//@ func (*Permission).start$1
+//@   requires p != nil && p.allocation != nil && p.allocation.fiveTuple != nil
+//@   ensures [C01,C07:expire] !has(p.allocation.permissions, ipKey(p.Addr))
+//@   ensures [C01,C07:expire-frame] forall k :: k != ipKey(p.Addr) ==> haskey(p.allocation.permissions, k) == old(haskey(p.allocation.permissions, k))
+
+//@ func (*Permission).refresh
+//@   requires [C18:timer-set] p.lifetimeTimer != nil
+//@   requires p.log != nil && p.allocation != nil
+//@   ensures [C07:restarted] timerSet(p.lifetimeTimer, lifetime)
+//@   ensures forall t :: t != p.lifetimeTimer ==> dur(t) == old(dur(t)) && armed(t) == old(armed(t))
+//@   ensures forall t :: timerfn(t) == old(timerfn(t))
+//@   assigns timers
+
+//@ func (*Allocation).RemovePermission
+//@   requires a.fiveTuple != nil
+//@   ensures [C01,C07:removed] !has(a.permissions, ipKey(addr))
+//@   ensures [C01,C07:frame] forall k :: k != ipKey(addr) ==> haskey(a.permissions, k) == old(haskey(a.permissions, k)) && valat(a.permissions, k) == old(valat(a.permissions, k))
+//@   assigns entries(a.permissions)
+
+//@ func (*Allocation).AddPermission
+//@   requires allocWF(a) && permTimers(a)
+//@   requires perms != nil && perms.lifetimeTimer == nil && perms.log != nil
+//@   requires [C01:granted] granted[ipKey(perms.Addr)]
+//@   requires [C01:family] famOK(ipOf(perms.Addr), int(a.addressFamily))
+//@   ensures [C07:installed] has(a.permissions, ipKey(perms.Addr))
+//@   ensures [C07:full-restart] timerSet(a.permissions[ipKey(perms.Addr)].lifetimeTimer, perms.timeout)
+//@   ensures [C07:same-entry] old(has(a.permissions, ipKey(perms.Addr))) ==> a.permissions[ipKey(perms.Addr)] == old(a.permissions[ipKey(perms.Addr)])
+//@   ensures [C07:new-entry] !old(has(a.permissions, ipKey(perms.Addr))) ==> a.permissions[ipKey(perms.Addr)] == perms && perms.allocation == a
+//@   ensures [C01,C07:frame] forall k :: k != ipKey(perms.Addr) ==> haskey(a.permissions, k) == old(haskey(a.permissions, k)) && valat(a.permissions, k) == old(valat(a.permissions, k))
+//@   ensures [C07:other-timers] old(has(a.permissions, ipKey(perms.Addr))) ==> forall t :: t != old(a.permissions[ipKey(perms.Addr)].lifetimeTimer) ==> dur(t) == old(dur(t)) && armed(t) == old(armed(t))
+//@   ensures [C07:other-timers-new] !old(has(a.permissions, ipKey(perms.Addr))) ==> fresh(perms.lifetimeTimer) && forall t :: t != perms.lifetimeTimer ==> dur(t) == old(dur(t)) && armed(t) == old(armed(t))
+//@   ensures allocWF(a) && permTimers(a)
+//@   assigns entries(a.permissions), perms.allocation, perms.lifetimeTimer, timers
+
+//@      // ---- channel bindings (C07, C08). chanInv is the one-to-one invariant of the property.
+//@ spec func chanTimers(a *Allocation) bool = forall i :: 0 <= i && i < len(a.channelBindings) ==> a.channelBindings[i].lifetimeTimer != nil && a.channelBindings[i].log != nil && a.channelBindings[i].allocation == a
+//@ spec func chanNumsUnique(a *Allocation) bool = forall i, j :: 0 <= i && i < len(a.channelBindings) && 0 <= j && j < len(a.channelBindings) && i != j ==> a.channelBindings[i].Number != a.channelBindings[j].Number
+//@ spec func chanPeersUnique(a *Allocation) bool = forall i, j :: 0 <= i && i < len(a.channelBindings) && 0 <= j && j < len(a.channelBindings) && i != j ==> !addrEqual(a.channelBindings[i].Peer, a.channelBindings[j].Peer)
+//@ spec func chanRange(a *Allocation) bool = forall i :: 0 <= i && i < len(a.channelBindings) ==> validChan(int(a.channelBindings[i].Number))
+//@ spec func chanInv(a *Allocation) bool = chanNumsUnique(a) && chanPeersUnique(a) && chanRange(a)
+//@ spec func validChan(n int) bool = 0x4000 <= n && n <= 0x7FFF
+//@      // every timer belongs to exactly one permission or channel binding
+//@ spec func timersDisjoint(a *Allocation) bool = forall i, k :: 0 <= i && i < len(a.channelBindings) && haskey(a.permissions, k) ==> a.channelBindings[i].lifetimeTimer != valat(a.permissions, k).lifetimeTimer
+
+//@ func NewChannelBind
+//@   pure
+//@   ensures res != nil && fresh(res) && res.Number == number && res.Peer == peer && res.log == log && res.lifetimeTimer == nil && res.allocation == nil
+
+//@ func (*ChannelBind).start
+//@   ensures [C07:armed] timerSet(c.lifetimeTimer, lifetime) && fresh(c.lifetimeTimer)
+//@   ensures [C07,C08:expiry-action] clofn(timerfn(c.lifetimeTimer)) == fnid("(*ChannelBind).start$1") && *clovar(timerfn(c.lifetimeTimer), "(*ChannelBind).start$1", 0) == c
+//@   ensures forall t :: t != c.lifetimeTimer ==> dur(t) == old(dur(t)) && armed(t) == old(armed(t)) && timerfn(t) == old(timerfn(t))
+//@   assigns c.lifetimeTimer, timers
+
+//@ func (*ChannelBind).refresh
+//@   requires [C18:timer-set] c.lifetimeTimer != nil
+//@   requires c.log != nil && c.allocation != nil
+//@   ensures [C07:restarted] timerSet(c.lifetimeTimer, lifetime)
+//@   ensures forall t :: t != c.lifetimeTimer ==> dur(t) == old(dur(t)) && armed(t) == old(armed(t))
+//@   ensures forall t :: timerfn(t) == old(timerfn(t))
+//@   assigns timers
+
+//@ func (*Allocation).RemoveChannelBind
+//@   requires chansWF(a) && a.fiveTuple != nil
+//@   ensures [C07,C08:removed] old(chanNumsUnique(a)) ==> forall i :: 0 <= i && i < len(a.channelBindings) ==> a.channelBindings[i].Number != number
+//@   ensures [C08:result] res == old(exists i :: 0 <= i && i < len(a.channelBindings) && a.channelBindings[i].Number == number)
+//@   ensures [C08:len] len(a.channelBindings) == old(len(a.channelBindings)) - (res ? 1 : 0)
+//@   ensures [C08:kept] !res ==> sameSlice(a.channelBindings, old(a.channelBindings))
+//@   ensures chansWF(a)
+//@   assigns a.channelBindings, mem(a.channelBindings)
+//@   loop 0 invariant -1 <= i && i < len(a.channelBindings) && sameSlice(a.channelBindings, old(a.channelBindings)) && chansWF(a)
+//@   loop 0 invariant forall j :: i < j && j < len(a.channelBindings) ==> a.channelBindings[j].Number != number
+//@   loop 0 invariant forall j :: 0 <= j && j < len(a.channelBindings) ==> a.channelBindings[j] == old(a.channelBindings[j])
+//@   loop 0 decreases i + 1
+
+//@ func (*ChannelBind).start$1
+//@   requires c != nil && c.allocation != nil && c.allocation.fiveTuple != nil && chansWF(c.allocation) && c.log != nil
+//@   ensures [C07,C08:expire] old(chanNumsUnique(c.allocation)) ==> forall i :: 0 <= i && i < len(c.allocation.channelBindings) ==> c.allocation.channelBindings[i].Number != c.Number
+
+//@ spec func conflicts(a *Allocation, num int, peer net.Addr) bool = exists i :: 0 <= i && i < len(a.channelBindings) && ((addrEqual(a.channelBindings[i].Peer, peer) && int(a.channelBindings[i].Number) != num) || (int(a.channelBindings[i].Number) == num && !addrEqual(a.channelBindings[i].Peer, peer)))
+
+//@ func (*Allocation).AddChannelBind
+//@   requires allocWF(a) && permTimers(a) && chanTimers(a) && timersDisjoint(a)
+//@   requires chanBind != nil && chanBind.log != nil && chanBind.lifetimeTimer == nil
+//@   requires [C08:valid-number] validChan(int(chanBind.Number))
+//@   requires [C01:granted] granted[ipKey(chanBind.Peer)]
+//@   requires [C01:family] famOK(ipOf(chanBind.Peer), int(a.addressFamily))
+//@   ensures [C08:reject-errors] res == nil || res == ErrSamePeerDifferentChannel || res == ErrSameChannelDifferentPeer
+//@   ensures [C08:reject-if] res != nil ==> old(conflicts(a, int(chanBind.Number), chanBind.Peer))
+//@   ensures [C08:accept-only-if] old(chanNumsUnique(a) && chanPeersUnique(a)) && res == nil ==> !old(conflicts(a, int(chanBind.Number), chanBind.Peer))
+//@   ensures [C08:reject-unchanged] res != nil ==> sameSlice(a.channelBindings, old(a.channelBindings)) && (forall i :: 0 <= i && i < len(a.channelBindings) ==> a.channelBindings[i] == old(a.channelBindings[i])) && (forall k :: haskey(a.permissions, k) == old(haskey(a.permissions, k)))
+//@   ensures [C08:nums-unique] old(chanNumsUnique(a)) ==> chanNumsUnique(a)
+//@   ensures [C08:peers-unique] old(chanPeersUnique(a)) ==> chanPeersUnique(a)
+//@   ensures [C08:range] old(chanRange(a)) ==> chanRange(a)
+//@   ensures [C07:chan-timer] res == nil ==> exists i :: 0 <= i && i < len(a.channelBindings) && a.channelBindings[i].Number == chanBind.Number && (a.channelBindings[i] == chanBind || addrEqual(a.channelBindings[i].Peer, chanBind.Peer)) && timerSet(a.channelBindings[i].lifetimeTimer, channelLifetime)
+//@   ensures [C07:perm-timer] res == nil ==> has(a.permissions, ipKey(chanBind.Peer)) && timerSet(a.permissions[ipKey(chanBind.Peer)].lifetimeTimer, permissionLifetime)
+//@   ensures allocWF(a) && permTimers(a) && chanTimers(a) && timersDisjoint(a)
+//@   assigns a.channelBindings, mem(a.channelBindings), chanBind.allocation, chanBind.lifetimeTimer, entries(a.permissions), timers
